@@ -68,11 +68,19 @@ def _const(e: ast.expr) -> Any:
 def key_lattice(ctx: Ctx):
     ci = ctx.repo.cls(COL, "_BaseAnchoredCollator")
     m = ctx.repo.lookup(ci, "_insertion_position")
-    body = SUMMARIZER.summarize(m.node)
+    # private helper methods inlined (a shared `_position_relative_to(anchor_id, rel)`), properties kept symbolic
+    body = expand(ctx.repo, ci, "_insertion_position", stop=lambda mm: mm.kind in ("lazyproperty", "property"))
     where = f"{COL}::_BaseAnchoredCollator._insertion_position"
     table = {}
+    def _pos(g, p):
+        # one polarity per test: `a not in b` is `not a in b`, `a != b` is `not a == b`
+        if isinstance(g, ast.Compare) and len(g.ops) == 1 and isinstance(g.ops[0], (ast.NotIn, ast.NotEq)):
+            g = ast.Compare(left=g.left, ops=[ast.In() if isinstance(g.ops[0], ast.NotIn) else ast.Eq()], comparators=g.comparators)
+            p = not p
+        return ("" if p else "not ") + u(g)
+
     for gs, leaf in strip_ifexp_paths(body):
-        key = " & ".join(("" if p else "not ") + u(g) for g, p in gs)
+        key = " & ".join(_pos(g, p) for g, p in gs)
         table[key] = tuple(_const(x) for x in leaf.elts) if isinstance(leaf, ast.Tuple) else u(leaf)
     want = {
         "subtotal.anchor == 'top'": (-1, 0),
@@ -87,8 +95,7 @@ def key_lattice(ctx: Ctx):
         problems = []
         for k, v in table.items():
             if not isinstance(v, tuple) or len(v) != 2:
-                problems.append(f"{k}: {v}")
-                continue
+                continue  # a leaf that is not a literal (position, rel) pair is not understood: no evidence either way
             pos, rel = v
             if "== 'top'" in k and not k.startswith("not") and not (isinstance(pos, int) and pos < 0):
                 problems.append(f"top anchored insertion has position {pos} (must sort before every base element: < 0)")
